@@ -867,9 +867,11 @@ func (c *gChecker) entryEnabled(in *gInst, e *gEnt, t int, why string) bool {
 				continue
 			}
 			if m.entDone(in, x) < t {
-				if x.Kind == gProbe && x.Fail > 0 && c.cancelPossible {
-					// a failing command that is forgiven leaves no END line: whether it failed (and the task went
-					// on) or was cut short by a cancellation (and the task stopped there) cannot be told apart
+				failing := (x.Kind == gProbe && x.Fail > 0) || (x.Kind == gCall && !m.res(x.Callee))
+				if failing && c.cancelPossible {
+					// a failing command (or a failing task call) that is forgiven leaves no END line: whether it failed
+					// (and the task went on) or was cut short by a cancellation (and the task stopped there) cannot be
+					// told apart
 					uncertain = true
 				}
 				continue
